@@ -57,9 +57,9 @@ W.contract(
 W.lemma(
     "comp_is_chars_at",
     vars=dict(t=SEQ(INT), a=STR),
-    goal="comp_to_base_alphabet_L3(t, a) == chars_at(t, a)",
+    goal="comp_4e5b2cdf(t, a) == chars_at(t, a)",
     ih=[dict(at=dict(t="t[:-1]"), measure="len(t)", when="len(t) > 0")],
-    hints=["comp_to_base_alphabet_L3(t, a)", "chars_at(t, a)"],
+    hints=["comp_4e5b2cdf(t, a)", "chars_at(t, a)"],
     needs=["vyxal/helpers.py::to_base_alphabet"],
     props=["C15"],
     note="the list comprehension in to_base_alphabet (mechanically turned into a recursive function) is chars_at",
